@@ -273,6 +273,28 @@ Proof.
   rewrite run_bind. destruct (run (ls_buckets hash l) f1). exact I.
 Qed.
 
+(* ---------- link_to ---------- *)
+Theorem open_linker_total plain key o target : psafe (open_linker plain key o target).
+Proof. unfold open_linker. apply psafe_rbind; [apply psafe_read_file|intros; apply psafe_ret_ok]. Qed.
+
+Theorem commit_linker_total l now : psafe (commit_linker hash l now).
+Proof.
+  unfold commit_linker. destruct (wf_sri_cpath _ (wf_sri_computed (l_algo l) (l_seen l ++ l_rest l))) as [cp ->].
+  set (rest := match (match o_sri (l_opts l) with Some d => match sri_matches d (sri_of hash (l_algo l) (l_seen l ++ l_rest l)) with Some _ => Some d | None => None end | None => Some (sri_of hash (l_algo l) (l_seen l ++ l_rest l)) end) with
+               | None => Ret (Err EIntegrity) | Some final => _ end).
+  assert (psafe rest) as Hrest.
+  { subst rest. destruct (match o_sri (l_opts l) with Some d => match sri_matches d _ with Some _ => Some d | None => None end | None => Some _ end); [|apply psafe_ret_err].
+    destruct (match o_size (l_opts l) with Some s => negb (s =? lenN (l_seen l ++ l_rest l)) | None => false end); destruct (o_size (l_opts l));
+      try apply psafe_ret_err; destruct (l_key l); try apply insert_total; apply psafe_ret_ok. }
+  apply psafe_rbind; [apply psafe_step_ok|intros _]. intros f. cbn [run].
+  destruct (exec (SymlinkTo (LAbs (l_target l)) (InCache cp)) f) as [r f1]. destruct r; try apply Hrest.
+  cbn [run]. destruct (exec_exists_shape (InCache cp) f1) as [b Hb]. destruct (exec (Exists (InCache cp)) f1) as [r2 f2]. cbn [fst] in Hb. subst r2.
+  destruct b; [apply Hrest|exact I].
+Qed.
+
+Theorem link_to_total key target now : psafe (link_to hash key target now).
+Proof. unfold link_to. apply psafe_rbind; [apply open_linker_total|intros; apply commit_linker_total]. Qed.
+
 (* ---------- whole sessions: any sequence of operations, any handles ---------- *)
 Definition wf_op (o : op) : Prop :=
   match o with
@@ -305,13 +327,13 @@ Proof.
   - cbn [hget]. destruct (N.eqb k h); [auto|exact IH].
 Qed.
 
-Lemma sinv_hset s r rs : sinv s -> wf_sri (r_sri rs) -> forall f, sinv (mkS f (s_w s) (hset r rs (s_r s))).
+Lemma sinv_hset s r rs : sinv s -> wf_sri (r_sri rs) -> forall f, sinv (mkS s f (s_w s) (hset r rs (s_r s))).
 Proof.
-  intros Hs Hw f h r0. cbn [s_r]. rewrite hget_hset. destruct (N.eqb r h); [intros H; inversion H; subst; exact Hw|].
+  intros Hs Hw f h r0. unfold mkS. cbn [s_r]. rewrite hget_hset. destruct (N.eqb r h); [intros H; inversion H; subst; exact Hw|].
   intros H. apply hget_hdel in H. exact (Hs _ _ H).
 Qed.
-Lemma sinv_hdel s r : sinv s -> forall f, sinv (mkS f (s_w s) (hdel r (s_r s))).
-Proof. intros Hs f h r0. cbn [s_r]. intros H. apply hget_hdel in H. exact (Hs _ _ H). Qed.
+Lemma sinv_hdel s r : sinv s -> forall f, sinv (mkS s f (s_w s) (hdel r (s_r s))).
+Proof. intros Hs f h r0. unfold mkS. cbn [s_r]. intros H. apply hget_hdel in H. exact (Hs _ _ H). Qed.
 Lemma sinv_same s s' : sinv s -> s_r s' = s_r s -> sinv s'.
 Proof. intros Hs E h r. rewrite E. apply Hs. Qed.
 
@@ -380,6 +402,16 @@ Proof.
   - apply Hrunv, remove_fully_total.
   - apply Hrunv, clear_total.
   - apply Hrunv, ls_total.
+  - apply Hrunv, link_to_total.
+  - pose proof (open_linker_total plain key o target (s_fs s)) as H. destruct (run (open_linker plain key o target) (s_fs s)) as [r f]. cbn [fst] in H.
+    destruct r; try contradiction; cbn [fst snd osafe safe rmap]; (split; [exact I|exact (sinv_same s _ Hs eq_refl)]).
+  - destruct (hget l (s_l s)) as [ls|]; [|split; [exact I|exact Hs]].
+    destruct (lchunk ls n) as [c ls']. cbn [fst snd osafe safe]. split; [exact I|exact (sinv_same s _ Hs eq_refl)].
+  - destruct (hget l (s_l s)) as [ls|]; [|split; [exact I|exact Hs]].
+    pose proof (commit_linker_total ls now (s_fs s)) as H. destruct (run (commit_linker hash ls now) (s_fs s)) as [r f]. cbn [fst] in H.
+    cbn [fst snd osafe]. split; [apply safe_rmap; exact H|exact (sinv_same s _ Hs eq_refl)].
+  - destruct (hget l (s_l s)) as [ls|]; [|split; [exact I|exact Hs]].
+    cbn [fst snd osafe safe]. split; [exact I|exact (sinv_same s _ Hs eq_refl)].
   - split; [exact I|exact (sinv_same s _ Hs eq_refl)].
   - split; [exact I|exact (sinv_same s _ Hs eq_refl)].
   - split; [exact I|exact (sinv_same s _ Hs eq_refl)].
